@@ -5,7 +5,8 @@
 (b) sleepers: the real config_sleep / set_config_mode on VLoop: up to 3 sleepers with delays from
     {0, 0.5, 1, 2} and start times from {0, 0.5, 1}, up to 2 switches at times on the same grid (so
     ties with starts and expiries occur), EVERY order of simultaneous timers (unbounded deviations -
-    the harness is tiny).  Each sleeper must wake at min(start+delay, first switch at/after its
+    the harness is tiny), then again with asyncio's batching of simultaneous timers as a further choice
+    (deviation-bounded; one worker explores one whole plan).  Each sleeper must wake at min(start+delay, first switch at/after its
     start [as ordered by the explored schedule]) and never later than it asked.
 (c) facade: on really connected facades of several snapshot configurations, every on/off combination of
     the pumps and blowers (set through partial updates of the spa block): GeckoConfig is the active
@@ -69,10 +70,11 @@ def _table_check():
     return n, viol
 
 
-def _sleep_run(ch, sleepers, switches):
+def _sleep_run(ch, sleepers, switches, batch=False):
     """sleepers: ((start, delay),...), switches: (time,...)"""
     lib.reset_library()
     loop = VLoop(ch, window=0.0)
+    loop.batch_choices_enabled = batch  # timers that expire at the same instant may run as one asyncio batch
     VNet(loop)
     t0 = loop.time()
     woke = {}
@@ -131,18 +133,41 @@ def _sleep_run(ch, sleepers, switches):
 
 
 def _sleep_job(job):
-    (sleepers, switches), prefix = job
+    (sleepers, switches), prefix = job[0][:2], job[1]
+    batch = len(job[0]) > 2 and bool(job[0][2])
 
     def body(ch):
-        why, obs, errors = _sleep_run(ch, sleepers, switches)
+        why, obs, errors = _sleep_run(ch, sleepers, switches, batch)
         viol = []
         if why:
             viol.append((f"C17|sleep|{why[0]}", f"sleepers {sleepers} switches {switches} order {[c for k, n, c in ch.trace]}: {why[1]}",
-                         {"mode": "sleep", "sleepers": [list(s) for s in sleepers], "switches": list(switches),
+                         {"mode": "sleep", "sleepers": [list(s) for s in sleepers], "switches": list(switches), "batch": batch,
                           "prefix": [list(p) for p in ch.trace]}))
         return {"violations": viol, "obs": obs, "end": obs, "asserts": len(errors)}
 
     return explore.run_with(prefix, body)
+
+
+def _plan_job(job):
+    """One worker explores one whole plan: every order of simultaneous timers (unbounded), then the same plan with
+    asyncio's batching of simultaneous timers as a further choice (deviation-bounded)."""
+    plan, quick = job
+    out = {"executions": 0, "batch_executions": 0, "obs": set(), "violations": [], "caps": []}
+    st = explore.explore_local(_sleep_job, plan, bound=64, max_execs=20000)
+    out["executions"] += st["executions"]
+    out["obs"] |= st["obs"]
+    out["violations"] += st["violations"]
+    if st["capped"]:
+        out["caps"].append(f"sleep{plan}: execution cap 20000 hit")
+    if plan[1] and not st["violations"]:
+        st = explore.explore_local(_sleep_job, plan + (True,), bound=2 if quick else 4, max_execs=20000)
+        out["executions"] += st["executions"]
+        out["batch_executions"] += st["executions"]
+        out["obs"] |= st["obs"]
+        out["violations"] += st["violations"]
+        if st["capped"]:
+            out["caps"].append(f"sleep-batch{plan}: execution cap 20000 hit at bound {st['completed_bound'] + 1}")
+    return out
 
 
 # ---- facade ---------------------------------------------------------------------------------
@@ -323,12 +348,9 @@ def run(ctx):
     # sleepers x switches, all tie orders
     plans = []
     for ns in (1, 2, 3):
+        sl_sets = list(itertools.combinations_with_replacement(list(itertools.product(STARTS, DELAYS)), ns))
         if ns == 3 and ctx.quick:
-            sl_sets = [((0.0, 1.0), (0.5, 0.5), (1.0, 2.0)), ((0.0, 2.0), (0.0, 0.5), (0.5, 0.0)), ((1.0, 1.0), (0.5, 2.0), (0.0, 1.0))]
-        else:
-            sl_sets = list(itertools.combinations_with_replacement(list(itertools.product(STARTS, DELAYS)), ns))
-            if ns == 3:
-                sl_sets = sl_sets[::5]
+            sl_sets = sl_sets[::11]
         for sl in sl_sets:
             for nsw in (0, 1, 2):
                 for sw in itertools.combinations(SWITCH_AT, nsw):
@@ -338,11 +360,17 @@ def run(ctx):
                         continue
                     plans.append((sl, sw))
     total = 0
+    btotal = 0
     asserts = 0
-    for i, plan in enumerate(plans):
-        st = explore.explore(ctx, _sleep_job, plan, bound=64, label=f"sleep{plan}", max_execs=20000)
-        total += st["executions"]
-        states.update(st["obs"])
+    pjobs = [(plan, ctx.quick) for plan in plans]
+    for res in core.pimap(ctx, _plan_job, pjobs, chunksize=max(1, len(pjobs) // (ctx.workers * 8))):
+        total += res["executions"]
+        btotal += res["batch_executions"]
+        states.update(res["obs"])
+        ctx.merge_violations(res["violations"])
+        for c in res["caps"]:
+            ctx.cap(c)
+    ctx.set("sleep_batch_executions", btotal)
     ctx.set("sleep_plans", len(plans))
     ctx.set("sleep_executions", total)
     ctx.log(f"{len(plans)} sleeper/switch plans, all tie orders: {total} executions")
@@ -375,7 +403,8 @@ def replay(ctx, data):
     if data["mode"] == "table":
         ctx.merge_violations(_table_check()[1])
     elif data["mode"] == "sleep":
-        res = _sleep_job(((tuple(tuple(s) for s in data["sleepers"]), tuple(data["switches"])), [tuple(p) for p in data["prefix"]]))
+        res = _sleep_job(((tuple(tuple(s) for s in data["sleepers"]), tuple(data["switches"]), bool(data.get("batch"))),
+                          [tuple(p) for p in data["prefix"]]))
         ctx.merge_violations(res["violations"])
     elif data["mode"] == "reconnect":
         for v in _reconnect_job(data["snapshot"])[1]:
